@@ -104,6 +104,16 @@ func (x *Exec) intrinsic(fr *Frame, fn *ssa.Function, name string, args []Value,
 		if x.io != nil {
 			x.io.exits = append(x.io.exits, x.st.pc)
 		}
+		if name == "os.Exit" && x.driver && len(args) == 1 && x.ghost == 0 {
+			if a := term(args[0]); a.IsConst() && a.Val.Sign() == 0 {
+				// the regular end of a program that never returns (main): remembered for the vacuity guard
+				if x.cleanExit == nil {
+					x.cleanExit = x.st.pc
+				} else {
+					x.cleanExit = Or(x.cleanExit, x.st.pc)
+				}
+			}
+		}
 		x.st = nil
 		return nil, true
 	}
@@ -252,6 +262,15 @@ func (x *Exec) vcIntrinsic(fr *Frame, name string, args []Value, pos token.Pos) 
 		name := x.constStr(args[0])
 		l := x.st.ghost[name]
 		iv, ok := args[1].(IfaceV)
+		if len(l) == 0 && ok && iv.V != nil && cm != nil && !cm.prove {
+			// the contract is being used, not proved: the caller has no such log, the callee's
+			// (abstracted) run created it; it now holds this value
+			if x.st.ghost == nil {
+				x.st.ghost = map[string][]Value{}
+			}
+			x.st.ghost[name] = []Value{x.snap(iv.V)}
+			return Scalar{True()}
+		}
 		if len(l) != 1 || !ok || iv.V == nil {
 			return Scalar{False()}
 		}
